@@ -55,6 +55,20 @@ def run(rep, tier, driver):
             paths.append(("stdout-cpu2", {"fn": "convert", "glycan_list": xs, "sink": "stdout", "cpu_count": 2, "verbose_none": 1}))
             paths.append(("generator", {"fn": "convert_generator", "glycan_list": xs, "verbose_none": 1}))
             paths.append(("file-input", {"fn": "convert", "file_lines": "\n".join(xs) + "\n", "cpu_count": 2, "verbose_none": 1}))
+            # every input container and their mixtures (glycan, glycan_list, glycan_file, glycan_generator: delivered in this order),
+            # into an output file that exists already and holds the listing of an earlier run
+            k = max(1, len(xs) // 3)
+            old = "Glc,OLD-CONTENT\nMan(a1-4)Glc,OLD\n"
+            paths.append(("file-prefilled-list", {"fn": "convert", "glycan_list": xs, "sink": "file", "prefill": old, "verbose_none": 1}))
+            paths.append(("file-prefilled-generator-only", {"fn": "convert", "generator": xs, "sink": "file", "prefill": old, "cpu_count": 1 + bi % 2, "verbose_none": 1}))
+            paths.append(("file-prefilled-list+generator", {"fn": "convert", "glycan_list": xs[:k], "generator": xs[k:], "sink": "file", "prefill": old, "verbose_none": 1}))
+            paths.append(("file-prefilled-all-containers", {"fn": "convert", "glycan": xs[0], "glycan_list": xs[1:k], "file_lines": "\n".join(xs[k:2 * k]) + "\n",
+                                                            "generator": xs[2 * k:], "sink": "file", "prefill": old, "cpu_count": 2, "verbose_none": 1}))
+            paths.append(("stdout-generator-only", {"fn": "convert", "generator": xs, "sink": "stdout", "verbose_none": 1}))
+            paths.append(("return-all-containers", {"fn": "convert", "glycan": xs[0], "glycan_list": xs[1:k], "file_lines": "\n".join(xs[k:2 * k]) + "\n",
+                                                    "generator": xs[2 * k:], "cpu_count": 4, "verbose_none": 1}))
+            paths.append(("generator-all-containers", {"fn": "convert_generator", "glycan": xs[0], "glycan_list": xs[1:k], "file_lines": "\n".join(xs[k:2 * k]) + "\n",
+                                                       "generator": xs[2 * k:], "verbose_none": 1}))
             for name, call in paths:
                 o = apirun.run_calls([call])[0]
                 rep.count(name)
@@ -62,7 +76,7 @@ def run(rep, tier, driver):
                 if o["exc"]:
                     rep.violation("batch", {"call": call, "path": name}, {"exception": o["exc"]}, {"pairs": want_pairs}, key="exc:%s:%d" % (name, bi))
                     continue
-                if name.startswith("return") or name in ("generator", "file-input"):
+                if name.startswith("return") or name.startswith("generator") or name == "file-input":
                     got = o["result"]
                     if got != want_pairs:
                         bad = next((i for i, (a, b) in enumerate(zip(got or [], want_pairs)) if a != b), min(len(got or []), len(want_pairs)))
@@ -82,10 +96,35 @@ def run(rep, tier, driver):
                         got = got[:-1]
                     if got != want_lines:
                         rep.violation("batch", {"call": call, "path": name}, {"lines": got[:5], "n": len(got)}, {"lines": want_lines[:5], "n": len(want_lines)}, key="stdout:%s:%d" % (name, bi))
+            if bi == 0:
+                for name, call, want in (
+                        ("file-prefilled-empty-generator", {"fn": "convert", "generator": [], "sink": "file", "prefill": old, "verbose_none": 1}, ""),
+                        ("file-prefilled-no-input", {"fn": "convert", "glycan_list": [], "sink": "file", "prefill": old, "verbose_none": 1}, old)):
+                    o = apirun.run_calls([call])[0]
+                    rep.count(name)
+                    rep.case(canon=[bi, name], nontrivial=True)
+                    mdl = None
+                    if driver is not None:
+                        a = driver.ask({"op": "convert", "gen_fn": False, "single": [], "list": None if "generator" in call else [], "file": None,
+                                        "gen": [] if "generator" in call else None, "conv": {}, "verbose_none": True, "sink": "file",
+                                        "logger_disabled": False, "prefill": old.split("\n")[:-1]})
+                        mdl = "".join(l + "\n" for l in (a.get("file") or []))
+                        if mdl != want:
+                            rep.broken.append("sink model (%s): file afterwards %r, Spec %r" % (name, mdl, want))
+                    if o["exc"] or o.get("file") != want:
+                        rep.violation("batch", {"call": call, "path": name}, {"file": o.get("file"), "exception": o["exc"]},
+                                      {"file": want, "why": "an empty generator is an input container: the listing of zero glycans replaces the old content; "
+                                                            "no input at all: convert returns before opening the file"}, key="file:%s" % name)
             # tie of the Lean Model of the sinks (C12_sinks_agree, C12_direct_use) to converter.py: the model, given the same per-glycan
             # outcomes, must produce the same pairs / file lines / stdout lines as the Spec expects of the code
             if driver is not None:
                 conv = {x: s for x, s in want_pairs if s}
+                a = driver.ask({"op": "convert", "gen_fn": False, "single": [{"s": xs[0]}], "list": [{"s": x} for x in xs[1:k]], "file_content": "\n".join(xs[k:2 * k]) + "\n",
+                                "gen": [{"s": x} for x in xs[2 * k:]], "conv": conv, "verbose_none": True, "sink": "file", "logger_disabled": False,
+                                "prefill": old.split("\n")[:-1]})
+                rep.count("sink-model-file-prefilled-all-containers")
+                if a.get("file") != want_lines:
+                    rep.broken.append("sink model (all containers into an existing file) disagrees with the Spec lines on batch %d" % bi)
                 for sink in ("return", "file", "stdout"):
                     a = driver.ask({"op": "convert", "gen_fn": False, "single": [], "list": [{"s": x} for x in xs], "file": None, "gen": None,
                                     "conv": conv, "verbose_none": True, "sink": sink, "logger_disabled": False})
